@@ -156,6 +156,11 @@ def cleanPoints (r : α) (pts : List (Pt α)) (l : Motl α) : Motl α :=
   (uniques (l.map (·.tomo_id))).flatMap
     (fun t => (l.filter (fun p => decide (p.tomo_id = t))).filter (fun p => !nearPoint r pts p))
 
+/-- **the statement of the reference-point clause, executable** (what the driver answers as `spec`): the input without
+the particles within the radius of a point of their tomogram — no grouping, no loop, input order -/
+def cleanPointsStmt (r : α) (pts : List (Pt α)) (l : Motl α) : Motl α :=
+  l.filter (fun p => !nearPoint r pts p)
+
 /-! ## clean_by_tomo_mask -/
 
 /-- a binarised mask volume: shape and the voxel values (`true` = non-zero), indexed `[x, y, z]` -/
@@ -224,12 +229,53 @@ def cleanMaskWith (cfg : MaskCfg) (tr : α → Int) (tomos : List α) (arg : Mas
   | .error e => .error e
   | .ok tm => .ok (tm.foldl (maskStep cfg tr l) l)
 
+/-! ### how `tomo_list` reaches the pairing with the masks: `ioutils.tlt_load(tomo_list, sort_angles)` -/
+
+/-- the forms of the `tomo_list` argument: values handed over in memory (list, tuple, ndarray, a single number) or the
+path of a file holding one value per line (`fromFile l`: the values in the order of the lines) -/
+inductive TomoArg (α : Type)
+  | asGiven (l : List α)
+  | fromFile (l : List α)
+
+/-- the tomograms the caller listed, in the caller's order (entry `i` belongs to mask `i`) -/
+def TomoArg.values : TomoArg α → List α
+  | .asGiven l => l
+  | .fromFile l => l
+
+/-- insertion into an ascending list -/
+def insertAsc (a : α) : List α → List α
+  | [] => [a]
+  | b :: l => if a ≤ b then a :: b :: l else b :: insertAsc a l
+
+/-- `np.sort`: the values in ascending order -/
+def sortAsc : List α → List α
+  | [] => []
+  | a :: l => insertAsc a (sortAsc l)
+
+/-- `ioutils.tlt_load(input, sort_angles)`: an ndarray is returned as it is and a list as `np.asarray(list)` — never sorted;
+the values read from a file are sorted exactly when `sort_angles` holds (written for tilt angles) -/
+def tltLoad (sortAngles : Bool) : TomoArg α → List α
+  | .asGiven l => l
+  | .fromFile l => if sortAngles then sortAsc l else l
+
+/-- `clean_by_tomo_mask(tomo_list, tomo_masks)` from the argument as handed over: load the list, then the loop -/
+def cleanMaskArgWith (cfg : MaskCfg) (sortFile : Bool) (tr : α → Int) (ta : TomoArg α) (arg : MaskArg) (l : Motl α) :
+    Except MaskErr (Motl α) :=
+  cleanMaskWith cfg tr (tltLoad sortFile ta) arg l
+
 def maskCfgDoc : MaskCfg := { lowCmp := .ge, highCmp := .lt, zeroCmp := .eq, scope := .byTomoAndId }
 /-- the code up to commit 0eff65b: removal by `subtomo_id` on the whole list (regression witness) -/
 def maskCfgById : MaskCfg := { lowCmp := .ge, highCmp := .lt, zeroCmp := .eq, scope := .byId }
 def cleanMask (tr : α → Int) (tomos : List α) (arg : MaskArg) (l : Motl α) := cleanMaskWith maskCfgDoc tr tomos arg l
 def cleanMaskById (tr : α → Int) (tomos : List α) (arg : MaskArg) (l : Motl α) := cleanMaskWith maskCfgById tr tomos arg l
 def cleanMaskCode (tr : α → Int) (tomos : List α) (arg : MaskArg) (l : Motl α) := cleanMaskWith Gen.C09.maskCfg tr tomos arg l
+/-- documented: the list is used AS GIVEN whatever its form (`tlt_load(tomo_list, sort_angles=False)`) -/
+def cleanMaskArg (tr : α → Int) (ta : TomoArg α) (arg : MaskArg) (l : Motl α) := cleanMaskArgWith maskCfgDoc false tr ta arg l
+/-- the code before the repair `tlt_load(tomo_list, sort_angles=False)`: a list read from a file was sorted (regression witness) -/
+def cleanMaskArgSorted (tr : α → Int) (ta : TomoArg α) (arg : MaskArg) (l : Motl α) := cleanMaskArgWith maskCfgDoc true tr ta arg l
+/-- today's source: operators and the effective `sort_angles` as the translator found them -/
+def cleanMaskArgCode (tr : α → Int) (ta : TomoArg α) (arg : MaskArg) (l : Motl α) :=
+  cleanMaskArgWith Gen.C09.maskCfg Gen.C09.maskTomoFileSorted tr ta arg l
 
 /-! ### the STATEMENT of the mask clause, executable: what the driver answers as `spec` -/
 
